@@ -350,6 +350,25 @@ func sceneBuild(objs []sceneObj, site string, rng *rand.Rand) render3d.Object {
 		return render3d.JoinedObject(parts)
 	case "BVHToObject":
 		return render3d.BVHToObject(model3d.NewBVHAreaDensity(parts))
+	case "BVHWide":
+		// a hand-built hierarchy whose branches have three or four children (any fan-out >= 2 is a valid BVH)
+		var build func(ps []render3d.Object) *model3d.BVH[render3d.Object]
+		build = func(ps []render3d.Object) *model3d.BVH[render3d.Object] {
+			if len(ps) == 1 {
+				return &model3d.BVH[render3d.Object]{Leaf: ps[0]}
+			}
+			fan := 3 + rng.Intn(2)
+			if fan > len(ps) {
+				fan = len(ps)
+			}
+			b := &model3d.BVH[render3d.Object]{}
+			for k := 0; k < fan; k++ {
+				lo, hi := k*len(ps)/fan, (k+1)*len(ps)/fan
+				b.Branch = append(b.Branch, build(ps[lo:hi]))
+			}
+			return b
+		}
+		return render3d.BVHToObject(build(parts))
 	case "FilteredObject":
 		j := render3d.JoinedObject(parts)
 		return &render3d.FilteredObject{Object: j, Bounds: model3d.BoundsRect(j)}
@@ -365,6 +384,9 @@ func sceneBuild(objs []sceneObj, site string, rng *rand.Rand) render3d.Object {
 func sceneRun(id int, site string, rng *rand.Rand, nrays int) sceneRec {
 	rec := sceneRec{ID: id, Kind: "hit", Site: site}
 	nobj := 1 + rng.Intn(4)
+	if site == "BVHWide" {
+		nobj = 3 + rng.Intn(5)
+	}
 	for i := 0; i < nobj; i++ {
 		var o sceneObj
 		for a := 0; a < 3; a++ {
@@ -574,7 +596,7 @@ func init() {
 		stats := map[string]int{}
 		id := a.int("firstid", 0)
 		for i := 0; i < a.int("scenes", 50); i++ {
-			for _, site := range []string{"JoinedObject", "BVHToObject", "FilteredObject", "Nested"} {
+			for _, site := range []string{"JoinedObject", "BVHToObject", "FilteredObject", "Nested", "BVHWide"} {
 				id++
 				out.write(sceneRun(id, site, rng, a.int("rays", 40)))
 				stats["records"]++
